@@ -215,6 +215,8 @@ def make_exc(name, msg=None):
         return KeyboardInterrupt()
     if name == 'AssertionError':
         return AssertionError(m)
+    if name == 'SkipTest':
+        return unittest.SkipTest(m)
     if name == 'StopIteration':
         return StopIteration(m)
     if name == 'SyntaxError':
